@@ -5,6 +5,7 @@ import (
 	"encoding/json"
 	"fmt"
 	"testing"
+	"time"
 
 	"github.com/tonkeeper/tongo/boc"
 
@@ -17,7 +18,7 @@ import (
 // built in memory is converted, then one of its cells gets more bits or another child, and it is converted
 // again (other trees are converted in between): every document parses back to the tree of its moment - also
 // when the tree holds another cell that still looks like the changed cell looked before.
-var cellHistory = &core.Check{Name: "c20/cell-history", Quick: 600, Thorough: 60000, Fn: func(c *core.Ctx) error {
+var cellHistory = &core.Check{Name: "c20/cell-history", Quick: 600, Thorough: 60000, Hang: caseHang, Fn: func(c *core.Ctx) error {
 	mk := func(bits ref.Bits) *boc.Cell {
 		x := boc.NewCell()
 		_ = x.WriteBitString(gen.BitString(bits))
@@ -106,3 +107,53 @@ var cellHistory = &core.Check{Name: "c20/cell-history", Quick: 600, Thorough: 60
 }}
 
 func TestCellHistory(t *testing.T) { core.Run(t, cellHistory) }
+
+// caseHang: a conversion to or from JSON is microseconds of computation; one that is still running after a
+// minute does not come to an end.
+const caseHang = 60 * time.Second
+
+// c20/bitstring-capacity: a bit string is more than its bits - it has a capacity, and the writers leave spare
+// room in it (a builder of 10 bits that holds 9, a cell of 1023 bits that holds 1021). Its JSON form is a
+// function of the bits written: every (capacity, length) pair converts, and converts back to the same bits.
+// tape: capacity 0..1030 region, spare bits 0..9, content seed.
+var bitStringCapacity = &core.Check{Name: "c20/bitstring-capacity", Hang: caseHang, Fn: func(c *core.Ctx) error {
+	length := c.Intn("len", 1100)
+	spare := c.Intn("spare", 10)
+	sm := core.NewSplitMix(c.U64("seed"))
+	bs := boc.NewBitString(length + spare)
+	want := make(ref.Bits, length)
+	for i := range want {
+		want[i] = sm.Next()&1 == 1
+		_ = bs.WriteBit(want[i])
+	}
+	c.NonTrivial(length, spare)
+	doc, err := json.Marshal(bs)
+	if err != nil {
+		return fmt.Errorf("json.Marshal of a bit string with %d bits written and %d spare: %v", length, spare, err)
+	}
+	if wantDoc := `"` + want.FiftHex() + `"`; string(doc) != wantDoc {
+		return fmt.Errorf("a bit string with %d bits written and %d spare converts to %s, the bits are %s", length, spare, trunc(string(doc)), trunc(wantDoc))
+	}
+	var back boc.BitString
+	if err := json.Unmarshal(doc, &back); err != nil {
+		return fmt.Errorf("own JSON %s does not parse: %v", trunc(string(doc)), err)
+	}
+	if back.BitsAvailableForRead() != length || back.ToFiftHex() != want.FiftHex() {
+		return fmt.Errorf("JSON %s of a bit string with %d bits parses back to %d bits %s", trunc(string(doc)), length, back.BitsAvailableForRead(), trunc(back.ToFiftHex()))
+	}
+	return nil
+}}
+
+func TestBitStringCapacity(t *testing.T) {
+	core.RunEnum(t, bitStringCapacity, "bit strings of 0..40 and 1000..1030 bits x 0..9 spare bits of capacity", func(yield func(...uint64) bool) {
+		for _, r := range [][2]int{{0, 40}, {1000, 1030}} {
+			for n := r[0]; n <= r[1]; n++ {
+				for spare := 0; spare < 10; spare++ {
+					if !yield(uint64(n), uint64(spare), uint64(n*31+spare)) {
+						return
+					}
+				}
+			}
+		}
+	})
+}
